@@ -4,6 +4,7 @@ import json,sys,os,shutil,subprocess
 cid,k,caught=sys.argv[1],sys.argv[2],sys.argv[3]
 note=sys.argv[4] if len(sys.argv)>4 else ''
 src='/tmp/seed/%s/OUT'%cid
+prop=cid[:3]
 dst='/verif/seeded/%s-%s'%(cid,k)
 os.makedirs(dst,exist_ok=True)
 if not os.path.exists(dst+'/patch.diff'):
@@ -11,10 +12,10 @@ if not os.path.exists(dst+'/patch.diff'):
 shutil.copy('%s/demo%s.rs'%(src,k),dst+'/demo.rs')
 m=json.load(open('%s/meta%s.json'%(src,k)))
 head=subprocess.check_output(['git','-C','/repo','rev-parse','--short','HEAD']).decode().strip()
-meta={'property':cid,'summary':m.get('summary'),'needs':m.get('needs'),'example_input':m.get('example_input'),'expected_vs_actual':m.get('expected_vs_actual'),
+meta={'property':prop,'summary':m.get('summary'),'needs':m.get('needs'),'example_input':m.get('example_input'),'expected_vs_actual':m.get('expected_vs_actual'),
  'origin':'independent sub-agent given only the property text and a scratch worktree',
  'confirmed':'applied to /repo (git apply), `cargo test --offline -p swc-vue-jsx-visitor` = 81 passed, demo.rs passes on the clean tree and fails with the patch (agent-run, re-run by tools/seedtest.sh for the suite part), reverted afterwards',
- 'ran':'tools/seedtest.sh seeded/%s-%s/patch.diff %s'%(cid,k,' '.join(caught.split(',')) if caught!='-' else cid),
+ 'ran':'tools/seedtest.sh seeded/%s-%s/patch.diff %s'%(cid,k,' '.join(caught.split(',')) if caught!='-' else prop),
  'caught_by':[] if caught=='-' else caught.split(','),'checked_at_repo_head':head,'note':note}
 json.dump(meta,open(dst+'/meta.json','w'),indent=1)
 print('saved',dst)
